@@ -524,6 +524,12 @@ impl PrometheusBuilder {
         self.build_with_clock(Clock::new())
     }
 
+    /// Verification-only: builds the recorder with a caller-supplied (mockable) clock.
+    #[cfg(metrics_verif)]
+    pub fn verif_build_with_clock(self, clock: Clock) -> PrometheusRecorder {
+        self.build_with_clock(clock)
+    }
+
     pub(crate) fn build_with_clock(self, clock: Clock) -> PrometheusRecorder {
         let inner = Inner {
             registry: Registry::new(GenerationalStorage::new(AtomicStorage)),
